@@ -438,10 +438,14 @@ def check_events(name, out, pre, post, log, enabled):
       if len(ins) - len(dele) != len(b) - len(a):
         return 'list-balance', 'list at %r went from %d to %d items, the event reports %d insertions and %d deletions' % (
             post.nodes[lid][2], len(a), len(b), len(ins), len(dele))
+      # (the entries of one batch are applied in order, each index meaning the list as the previous entries left it:
+      # a value may be put in by one entry and taken out again by a later one - both are then reported)
+      put_in = [u.new_value for _, u in items if not u.new_value == MISSING]
+      taken_out = [u.old_value for _, u in items if u.new_value == MISSING and not u.old_value == MISSING]
       for k, u in items:
-        if not u.old_value == MISSING and not any(_same(u.old_value, x) for x in a):
+        if not u.old_value == MISSING and not any(_same(u.old_value, x) for x in a) and not any(u.old_value is x for x in put_in):
           return 'payload-old', 'update of %r reports old value %s which the list did not hold' % (str(u.path), _r(u.old_value))
-        if not u.new_value == MISSING and not any(_same(u.new_value, x) for x in b):
+        if not u.new_value == MISSING and not any(_same(u.new_value, x) for x in b) and not any(u.new_value is x for x in taken_out):
           return 'payload-new', 'update of %r reports new value %s which the list does not hold' % (str(u.path), _r(u.new_value))
       pure = sum(1 for g in (ins, dele, rep) if g) == 1
       if len(ins) > 1 and name not in LIST_EXACT_INSERT:
